@@ -1,6 +1,7 @@
 package c08
 
 import (
+	"bytes"
 	"testing"
 
 	"seehuhn.de/go/sfnt/glyph"
@@ -10,7 +11,9 @@ import (
 	"seehuhn.de/go/sfnt/opentype/gdef"
 	"seehuhn.de/go/sfnt/opentype/gtab"
 	"seehuhn.de/go/sfnt/opentype/markarray"
+	"verif/harness/fontcmp"
 	"verif/harness/gen/lookups"
+	"verif/harness/guard"
 	"verif/harness/stats"
 )
 
@@ -154,5 +157,57 @@ func TestC08RegressGpos5MarkClassFFFF(t *testing.T) {
 				Meta: &gtab.LookupMetaInfo{LookupType: 5}, Subtables: []gtab.Subtable{v.st}}}},
 			desc: []string{v.name},
 		})
+	}
+}
+
+// TestC08RegressRuleOffsets: values whose size sits in ONE long rule (33000
+// glyphs) instead of many rules or rule sets - the offset of the rule behind
+// it inside its rule set passes 64 KiB - and a pair set with all 65536 second
+// glyphs (a 16-bit count cannot say 65536).  The format cannot hold these
+// values: the encoder must refuse loudly or, if it writes anything, the bytes
+// must read back as the value.
+func TestC08RegressRuleOffsets(t *testing.T) {
+	long := make([]glyph.ID, 33000)
+	longCls := make([]uint16, 33000)
+	for i := range long {
+		long[i] = glyph.ID(1 + i%100)
+		longCls[i] = uint16(1 + i%3)
+	}
+	classes := classdef.Table{1: 1, 2: 2, 3: 3}
+	pairs := gtab.Gpos2_1{}
+	for r := 0; r < 65536; r++ {
+		pairs[glyph.Pair{Left: 3, Right: glyph.ID(r)}] = &gtab.PairAdjust{First: &gtab.GposValueRecord{XAdvance: 10}}
+	}
+	cases := []struct {
+		name string
+		kind gtab.Type
+		tp   uint16
+		st   gtab.Subtable
+	}{
+		{"SeqContext1: second rule behind a 66 KB rule", gtab.TypeGsub, 5, &gtab.SeqContext1{Cov: coverage.Table{5: 0},
+			Rules: [][]*gtab.SeqRule{{{Input: long}, {Input: []glyph.ID{7}}}}}},
+		{"SeqContext2: second rule behind a 66 KB rule", gtab.TypeGsub, 5, &gtab.SeqContext2{Cov: coverage.Table{1: 0}, Input: classes,
+			Rules: [][]*gtab.ClassSeqRule{nil, {{Input: longCls}, {Input: []uint16{2}}}}}},
+		{"ChainedSeqContext1: second rule behind a 66 KB rule", gtab.TypeGsub, 6, &gtab.ChainedSeqContext1{Cov: coverage.Table{5: 0},
+			Rules: [][]*gtab.ChainedSeqRule{{{Backtrack: long}, {Backtrack: []glyph.ID{7}}}}}},
+		{"Gpos2_1: one first glyph with all 65536 second glyphs", gtab.TypeGpos, 2, pairs},
+	}
+	for _, c := range cases {
+		info := &gtab.Info{LookupList: gtab.LookupList{{Meta: &gtab.LookupMetaInfo{LookupType: c.tp}, Subtables: []gtab.Subtable{c.st}}}}
+		var data []byte
+		if pn := guard.Try(func() { data = info.Encode() }); pn != nil {
+			stats.CaseIn("regress-rule-offsets", stats.Hash(c.name), true, func() string { return c.name + ": refused" }, "refused-loudly")
+			continue
+		}
+		got, err := gtab.Read(bytes.NewReader(data), c.kind)
+		if err != nil {
+			t.Errorf("%s: Encode wrote %d bytes without complaint, Read rejects them: %v", c.name, len(data), err)
+			continue
+		}
+		if d := fontcmp.DeepDiff("lookups", info.LookupList, got.LookupList); d != "" {
+			t.Errorf("%s: Encode wrote %d bytes without complaint, they read back as another value: %s", c.name, len(data), d)
+			continue
+		}
+		stats.CaseIn("regress-rule-offsets", stats.Hash(c.name), true, func() string { return c.name + ": written and read back" }, "written-intact")
 	}
 }
